@@ -55,3 +55,99 @@ Proof.
   unfold hop. repeat match goal with |- context [if ?b then _ else _] => destruct b eqn:? end;
     first [reflexivity | exfalso; lia].
 Qed.
+
+(* ------------------------------------------------------------------ HopfieldNet.train
+   The source-derived definition is the triple loop with raising element reads and writes; the hand-written
+   train_loop (Model/Hopfield.v) is its statement-by-statement model, proved equal to `train` in
+   Proofs/HopfieldProofs.v (train_loop_eq). *)
+Lemma src_upd_nth_eq : forall {A} (l : list A) k f, src_upd_nth l k f = upd_nth l k f.
+Proof. intros A l. induction l as [|x l IH]; intros [|k] f; cbn; try reflexivity; try (now rewrite IH). Qed.
+
+Lemma py_index_nat : forall n k, py_index n (Z.of_nat k) = if (k <? n)%nat then Some k else None.
+Proof.
+  intros n k. unfold py_index.
+  destruct (k <? n)%nat eqn:E.
+  - destruct ((0 <=? Z.of_nat k) && (Z.of_nat k <? Z.of_nat n)) eqn:E1; [now rewrite Nat2Z.id | lia].
+  - destruct ((0 <=? Z.of_nat k) && (Z.of_nat k <? Z.of_nat n)) eqn:E1; [lia|].
+    destruct ((- Z.of_nat n <=? Z.of_nat k) && (Z.of_nat k <? 0)) eqn:E2; [lia | reflexivity].
+Qed.
+
+Lemma src_mat_upd_agrees : forall (W : list (list Z)) (i j : nat) (f : Z -> Z),
+  src_mat_upd W (Z.of_nat i) (Z.of_nat j) f = mset_py W i j f.
+Proof.
+  intros W i j f. unfold src_mat_upd, mset_py, mupd. rewrite py_index_nat.
+  destruct (i <? length W)%nat eqn:E.
+  - destruct (nth_error W i) as [row|] eqn:E1; [|reflexivity]. rewrite py_index_nat.
+    destruct (j <? length row)%nat eqn:E2.
+    + destruct (nth_error row j) eqn:E3.
+      * reflexivity.
+      * apply nth_error_None in E3. lia.
+    + destruct (nth_error row j) eqn:E3; [|reflexivity].
+      assert (j < length row)%nat by (apply nth_error_Some; congruence). lia.
+  - destruct (nth_error W i) eqn:E1; [|reflexivity].
+    assert (i < length W)%nat by (apply nth_error_Some; congruence). lia.
+Qed.
+
+Lemma src_for_for_res : forall {A B} (f : A -> B -> res (src_ctl A)) (g : A -> B -> res A) (l : list B),
+  (forall a x, f a x = bind (g a x) (fun a' => Ok (Next a'))) ->
+  forall a, src_for f l a = for_res g l a.
+Proof.
+  intros A B f g l H. induction l as [|x l IH]; intros a; [reflexivity|].
+  cbn [src_for for_res]. rewrite H. destruct (g a x) as [a'|e]; cbn [bind]; [apply IH | reflexivity].
+Qed.
+
+Lemma src_for_for_res_nat : forall {A} (f : A -> Z -> res (src_ctl A)) (g : A -> nat -> res A) (l : list nat),
+  (forall a k, f a (Z.of_nat k) = bind (g a k) (fun a' => Ok (Next a'))) ->
+  forall a, src_for f (map Z.of_nat l) a = for_res g l a.
+Proof.
+  intros A f g l H. induction l as [|x l IH]; intros a; [reflexivity|].
+  cbn [map src_for for_res]. rewrite H. destruct (g a x) as [a'|e]; cbn [bind]; [apply IH | reflexivity].
+Qed.
+
+Lemma src_range_0 : forall n : nat, src_range 0 (Z.of_nat n) = map Z.of_nat (seq 0 n).
+Proof. intros n. unfold src_range. rewrite Z.sub_0_r, Nat2Z.id. apply map_ext. intros k. lia. Qed.
+
+Lemma zeqb_nat20 : forall a b : nat, (Z.of_nat a =? Z.of_nat b) = (a =? b)%nat.
+Proof. intros a b. destruct (a =? b)%nat eqn:E; lia. Qed.
+
+Lemma py_get_exc : forall {A} (l : list A) k e, py_get l k = Raise e -> e = IndexError.
+Proof.
+  intros A l k e. unfold py_get. destruct (py_index (length l) k) as [n|]; [|congruence].
+  destruct (nth_error l n); congruence.
+Qed.
+
+Lemma upd_nth_ext : forall {A} (l : list A) k (f g : A -> A), (forall x, f x = g x) -> upd_nth l k f = upd_nth l k g.
+Proof. intros A l. induction l as [|x l IH]; intros [|k] f g H; cbn; try reflexivity; [now rewrite H | now rewrite (IH k f g H)]. Qed.
+
+Lemma mset_py_ext : forall W i j (f g : Z -> Z), (forall w, f w = g w) -> mset_py W i j f = mset_py W i j g.
+Proof.
+  intros W i j f g H. unfold mset_py, mupd. destruct (nth_error W i) as [row|]; [|reflexivity].
+  destruct (nth_error row j); [|reflexivity]. f_equal. apply upd_nth_ext. intros r. now apply upd_nth_ext.
+Qed.
+
+Theorem src_hopfield_train_agrees : forall P : list (list Z), src_hopfield_train P = train_loop P.
+Proof.
+  intros P. cbv beta zeta delta [src_hopfield_train train_loop].
+  destruct (py_get P 0) as [p0|e]; cbn [bind]; [|reflexivity].
+  rewrite ?Nat2Z.id. change (repeat (repeat 0 (length p0)) (length p0)) with (zeros (length p0) (length p0)).
+  match goal with |- bind (src_for ?f _ _) _ = _ => rewrite (src_for_for_res f train_pattern_m) end.
+  { destruct (for_res train_pattern_m P (zeros (length p0) (length p0))); reflexivity. }
+  intros W p. unfold train_pattern_m. rewrite src_range_0.
+  match goal with |- bind (src_for ?f _ _) _ = _ =>
+    rewrite (src_for_for_res_nat f (fun W1 i => for_res (fun W2 j => train_cell_m p W2 i j) (seq 0 (length p)) W1)) end.
+  { reflexivity. }
+  intros W1 i.
+  match goal with |- bind (src_for ?f _ _) _ = _ =>
+    rewrite (src_for_for_res_nat f (fun W2 j => train_cell_m p W2 i j)) end.
+  { reflexivity. }
+  intros W2 j. unfold train_cell_m. rewrite ?zeqb_nat20.
+  destruct (i =? j)%nat; cbv beta iota delta [negb];
+    repeat match goal with
+           | |- context [py_get p ?k] =>
+               let H := fresh "H" in destruct (py_get p k) eqn:H; [|apply py_get_exc in H; subst]; cbn [bind]
+           end;
+    rewrite ?src_mat_upd_agrees; try reflexivity;
+    try (match goal with |- bind (mset_py _ _ _ ?f) _ = bind (mset_py _ _ _ ?g) _ =>
+           rewrite (mset_py_ext W2 i j f g) by (intros; lia) end);
+    match goal with |- context [mset_py ?a ?b ?c ?d] => destruct (mset_py a b c d) end; reflexivity.
+Qed.
